@@ -41,8 +41,9 @@ def check(ctx: Ctx) -> list[RuleResult]:
     set_state = repo.func(f"{PC}.set_state")
     send_cmd_i = repo.func(f"{PC}._send_cmd")
     check_buf = repo.func(f"{PC}._check_buffer_for_cmd")
-    effect = repo.func(f"{PC}.set_state.effect_state")
-    expire = repo.func(f"{PC}.set_state.expire_state_on_timeout")
+    from .common import fsm_roles
+
+    effect, expire = fsm_roles(ctx)
 
     # ---- R1 ---------------------------------------------------------------------------
     r1 = RuleResult("R1", "the retry budget is the only gate to a retransmission", "who may call _send_cmd / pass timed_out / write tx_count, and under which guards", min_instances=8)
